@@ -28,7 +28,8 @@ PROOF_CORE = {
            'structure',
     'C05': 'every derived attribute equals that of a fresh object after any history (cache '
            'coherence invariant); reassign / relabel_consecutive have their documented '
-           'set-theoretic effect on every label array',
+           'set-theoretic effect on every label array; keep_labels / remove_masked_labels '
+           'remove exactly the complement / the fully masked labels; missing_labels',
     'C06': 'never modifies the input segmentation image; the merged output does not depend on the '
            'order in which worker processes finish (keyed stores into a pre-sized list, pure '
            'workers, serial and parallel merge textually identical)',
@@ -36,16 +37,21 @@ PROOF_CORE = {
     'C09': 'no result depends on access order or earlier calls (purity / configuration / reset '
            'invariants)',
     'C10': 'no public call modifies its arguments (frames)',
-    'C11': 'boxes with too few good pixels: the documented exclusion rule',
+    'C11': 'boxes with too few good pixels: the documented exclusion rule; fill_value exactly on '
+           'coverage-mask pixels; the statistics mask is the union of input, coverage and invalid '
+           'masks (so masked values cannot enter)',
     'C13': 'the circular Gaussian equals the elliptical one with equal widths at any rotation, '
            'sigma- and FWHM-parametrised forms agree, linear in flux, non-negative, centred; '
-           'ImagePSF returns fill_value outside its array and data*flux at its sample points',
+           'ImagePSF returns fill_value outside its array and data*flux at its sample points; '
+           'GriddedPSFModel uses the array centre as origin and the grid cell containing the position',
     'C14': '`brightest` keeps the N largest fluxes; find_peaks candidates are the unmasked '
            'non-border pixels above threshold that equal their neighbourhood maximum',
     'C17': 'centroid_sources acts per source, independent of the other positions; centroid_com '
-           'ignores masked and non-finite pixel values',
+           'ignores masked and non-finite pixel values; centroid_quadratic returns the maximum of '
+           'the fitted polynomial on a full-size box around the peak pixel',
     'C20': 'the scalar and array forms of the ellipse coordinate transform agree (both equal '
-           'one closed form)',
+           'one closed form); the semi-major axis steps strictly outwards then inwards (update_sma '
+           '/ reset_sma); an eps = 0 crossing rotates the angle by a quarter turn',
     'C18': 'leaves the input model and table unchanged; row-order independence of the loop state',
     'C19': 'the encircled-energy interpolators invert each other on the monotone part (maximal '
            'monotone prefix)',
